@@ -373,8 +373,7 @@ C05Multi == {
   Select(<<F(AKey, "k"), F(AVal, "v")>>, ABin("&", ABin("&", ABin(">", KA, AStr(a)), ABin("<", KA, AStr(c2))), ABin("!=", Call1("upper", KA), AStr(<<65, 66>>))), <<>>, <<>>, NoLim),
   Select(<<F(AKey, "k"), F(AVal, "v")>>, ABin("&", ABin("&", ABin(">", KA, AStr(a)), ABin("<", KA, AStr(c2))), ABin("!=", KA, AStr(abc))), <<>>, <<>>, NoLim),
   Select(<<F(AKey, "k"), NV>>, ABin("&", ABin("&", ABin(">", AName("n"), AInt(0)), ABin("<", ABin("+", AName("n"), AInt(1)), AInt(9))), ABin("!=", ABin("*", AName("n"), AInt(2)), AInt(4))), <<>>, <<>>, NoLim),
-  Select(<<F(AKey, "k"), F(ABin("+", KA, AStr(<<33>>)), "e")>>, ABin("&", ABin("&", ABin("!=", AName("e"), AStr(<<97, 33>>)), ABin("^=", ABin("+", AName("e"), KA), AStr(a))), ABin("!=", Call1("upper", AName("e")), AStr(<<65, 66, 33>>))), <<>>, <<>>, NoLim),
-  Select(<<F(AKey, "k"), NV, F(Call1("sum", Call1("strlen", KA)), "s")>>, ABin("!=", KA, AStr(ab)), <<>>, <<2>>, NoLim),
+  Select(<<F(AKey, "k"), F(Call1("sum", Call1("strlen", KA)), "s"), F(Call2("group_concat", Call1("upper", KA), AStr(<<44>>)), "g")>>, ABin("!=", KA, AStr(ab)), <<>>, <<1>>, NoLim),
   Select(<<F(AVal, "v"), F(Call1("sum", Call1("strlen", AName("v"))), "s"), F(Call1("count", AInt(1)), "c")>>, ABin("^=", AName("v"), AStr(<<>>)), <<>>, <<1>>, NoLim) }
 C05Cases == { [st |-> st, sid |-> sid] : st \in C05Stmts \cup C05Multi, sid \in {"I", "S7", "S40", "E"} } \cup C05Pt
 
